@@ -55,26 +55,30 @@ func (r *Reader) readIloc(b *box) (err error) {
 		return err
 	}
 
-	buf, err := b.Peek(b.remain)
-	if err != nil {
-		return
-	}
-
 	if optionSpeed == 0 {
 		ilb.items = make([]ilocEntry, 0, ilb.count)
 	}
 
-	for i := 0; i < len(buf); {
-		var ent ilocEntry
-		// smallest possible entry: id, (construction method), data reference index,
-		// base offset and extent count
-		entrySize := 2 + 2 + int(ilb.baseOffsetSize) + 2
-		if b.flags.version() > 0 {
-			entrySize += 2
+	// smallest possible entry: id, (construction method), data reference index,
+	// base offset and extent count
+	entrySize := 2 + 2 + int(ilb.baseOffsetSize) + 2
+	// an extent: offset and length
+	extentSize := int(ilb.offsetSize) + int(ilb.lengthSize)
+	if b.flags.version() > 0 { // version 1
+		entrySize += 2
+	}
+	// The entries are read one at a time: the box may be larger than the buffer.
+	for b.remain >= entrySize {
+		n := entrySize + extentSize
+		if n > b.remain {
+			n = b.remain
 		}
-		if i+entrySize > len(buf) {
+		buf, err := b.Peek(n)
+		if err != nil {
 			break
 		}
+		var ent ilocEntry
+		i := 0
 		ent.id = itemID(bmffEndian.Uint16(buf[i : i+2]))
 		i += 2
 
@@ -97,7 +101,7 @@ func (r *Reader) readIloc(b *box) (err error) {
 		// Only the first extent is used. (The count comes from the file: a loop over
 		// it that does nothing for the other extents still runs 65535 times per
 		// 6-byte item.)
-		if ent.count > 0 && i+int(ilb.offsetSize)+int(ilb.lengthSize) <= len(buf) {
+		if ent.count > 0 && i+extentSize <= len(buf) {
 			var ol offsetLength
 			ol.offset = uintN(ilb.offsetSize, buf[i:i+int(ilb.offsetSize)])
 			i += int(ilb.offsetSize)
@@ -118,7 +122,10 @@ func (r *Reader) readIloc(b *box) (err error) {
 		case r.heic.xml.id:
 			r.heic.xml.ol = ent.firstExtent
 		}
-		//if ent.ItemID == Exif...
+
+		if _, err = b.Discard(i); err != nil {
+			break
+		}
 	}
 	return b.close()
 }
